@@ -38,10 +38,22 @@ def gen_cases(chk):
     for fam, name, l in directed_libs(chk.seed + 1, quick, many=("many_props",) if quick else True):
         g.note(fam)
         cases.append({"kind": name, "lib": l})
+    # the file-system entry point (GdsLibrary::save): the bytes found in the file afterwards are the stream, both for a new file and for a
+    # file that already holds an older, longer content (a save that does not replace the whole file leaves a tail after ENDLIB)
+    small = [c for c in cases if lib_size(c["lib"]) < 3000 and classify_common(c["lib"]) == "other"]
+    for c in small[:: max(1, len(small) // (30 if quick else 300))]:
+        for old_len in (0, 200000):
+            g.note("file_save_fresh" if old_len == 0 else "file_save_over_longer_file")
+            cases.append({"kind": "save_" + c["kind"], "lib": c["lib"], "io": old_len})
     return spread_heavy(cases), g.dist
 
-def evaluate(chk, libs, tag):
-    res = harness("c01", [{"op": "write", "lib": to_json(l)} for l in libs])
+def cls_of(lib, io):
+    return classify_common(lib) if io is None else "file_save"
+
+def evaluate(chk, libs, tag, ios=None):
+    """ios[i] = None: GdsLibrary::write into a Vec; n: GdsLibrary::save to a scratch file holding n bytes of older content (0: no file)"""
+    ios = ios or [None] * len(libs)
+    res = harness("c01", [({"op": "write", "lib": to_json(l)} if io is None else {"op": "save", "lib": to_json(l), "old_len": io}) for l, io in zip(libs, ios)])
     items, idx = [], []
     out = [None] * len(libs)
     for i, (l, r) in enumerate(zip(libs, res)):
@@ -62,21 +74,21 @@ def run(chk, replay=None):
     chk.assumptions += [
         "GdsSpec.v is a faithful transcription of the GDSII stream format manual (record numbers, data types, grammar); cross-checked on foreign-written files in C03",
         "the double denoted by an eight-byte real / the reference encoding of a double are those of C15 (gds_decode proved correctly rounded, gds_spec_encode)",
-        "writing into a Vec<u8> (no I/O errors)",
+        "writing into a Vec<u8> (no I/O errors); family file_save: GdsLibrary::save on a scratch file of a working file system",
     ]
     if not getattr(chk, "model_ok", False):
         return
     if replay:
         obj = json.load(open(replay))["replay"]
-        cases = [{"kind": "replay", "lib": from_json(j)} for j in obj.get("cases", [])]
+        cases = [{"kind": "replay", "io": j.get("__save_over"), "lib": from_json({k: v for k, v in j.items() if k != "__save_over"})} for j in obj.get("cases", [])]
         dist = {}
     else:
         cases, dist = gen_cases(chk)
     libs = [c["lib"] for c in cases]
-    results = evaluate(chk, libs, "c02")
+    results = evaluate(chk, libs, "c02", [c.get("io") for c in cases])
     chk.cov["input_distribution"] = dist
     chk.cov["rule"] = ("libraries generated as for C01, plus every element kind with all / no optional fields and enumerated optional-field subsets, and the directed libraries "
-                       "(optional fields at their default value, STRANS flag combinations, record lengths at 256 / 32768, repeated names / elements / attributes, white space and control characters, more than 1024 items); "
+                       "(GdsLibrary::save to a new file and over an older, longer file: the bytes found in the file; optional fields at their default value, STRANS flag combinations, record lengths at 256 / 32768, repeated names / elements / attributes, white space and control characters, more than 1024 items); "
                        "impl bytes compared with the writer model and decoded by the independent reference decoder; non-trivial = at least one element; distinct by JSON value")
     chk.cov["evaluations"] = len(cases)
     chk.cov["distinct_nontrivial"] = len({lib_key(l) for l in libs if any(s["elems"] for s in l["structs"])})
@@ -86,11 +98,12 @@ def run(chk, replay=None):
     def shrinker(c, r, cls):
         if lib_size(c["lib"]) >= 5000:
             return c, r
+        io = c.get("io")
         def still(cands):
-            rs = evaluate(chk, cands, "c02shr")
-            return [rr[0] == 2 and classify_common(l) == cls for l, rr in zip(cands, rs)]
+            rs = evaluate(chk, cands, "c02shr", [io] * len(cands))
+            return [rr[0] == 2 and cls_of(l, io) == cls for l, rr in zip(cands, rs)]
         small = shrink(c["lib"], still)
-        return {"kind": "shrunk", "lib": small}, evaluate(chk, [small], "c02wit")[0]
+        return {"kind": "shrunk", "lib": small, "io": io}, evaluate(chk, [small], "c02wit", [io])[0]
     report(chk, chk.pid, "GDSII written bytes vs format specification", cases, results,
-           classify=lambda c, impl: classify_common(c["lib"]),
-           to_replay=lambda c: to_json(c["lib"]), size=lambda c: lib_size(c["lib"]), shrinker=shrinker)
+           classify=lambda c, impl: cls_of(c["lib"], c.get("io")),
+           to_replay=lambda c: (to_json(c["lib"]) if c.get("io") is None else dict(to_json(c["lib"]), __save_over=c["io"])), size=lambda c: lib_size(c["lib"]), shrinker=shrinker)
